@@ -76,6 +76,9 @@ pub open spec fn kids_of(t: Term) -> Seq<STerm>
     }
 }
 
+// view through a reference to an Rc (proof code cannot move a Term out of an Rc)
+pub open spec fn vr<'a>(r: &Rc<Term<'a>>) -> STerm { view(**r) }
+
 // Number of binders in scope of child i of a node of kind k with n children.
 pub open spec fn binds(k: Kind, n: nat, i: int) -> nat {
     match k {
@@ -85,9 +88,10 @@ pub open spec fn binds(k: Kind, n: nat, i: int) -> nat {
     }
 }
 
-// Overflow guard used by the exec contracts: 2^30, so that sums of two guarded quantities stay
-// below isize::MAX on 32- and 64-bit targets.
-pub open spec fn BOUND() -> int { 0x4000_0000 }
+// Overflow guard used by the exec contracts: 2^60 (the prelude fixes a 64-bit usize), so that sums of
+// a few guarded quantities stay below isize::MAX.  No term with an index, binder depth or group size
+// of 2^57 or more fits in a 64-bit address space (every binder is a distinct heap object).
+pub open spec fn BOUND() -> int { 0x1000_0000_0000_0000 }
 
 // Well-formedness used as precondition: no hole anywhere, every index below `b`, and the binder
 // depth reached from cutoff `c` stays below `b`.
